@@ -40,9 +40,12 @@ type g2lTarget struct {
 }
 
 type g2l struct {
-	t    *g2lTarget
-	opt  map[string]bool
-	pkgs map[string]bool // imported package names of the file
+	t     *g2lTarget
+	opt   map[string]bool
+	pkgs  map[string]bool // imported package names of the file
+	owned map[string]bool // locals holding a value created in this function (literal, make, var of value type):
+	// only these may be updated in place - anything else may alias memory the caller or another
+	// variable sees, which a value-semantics translation would silently lose
 }
 
 var leanReserved = map[string]bool{"end": true, "from": true, "at": true, "open": true, "then": true, "do": true, "fun": true,
@@ -429,6 +432,11 @@ func (g *g2l) block(o *g2lOut, ind int, list []ast.Stmt) {
 }
 
 func (g *g2l) assignTo(o *g2lOut, ind int, lhs ast.Expr, rhs string, define bool, n ast.Node) {
+	mustOwn := func(root *ast.Ident) {
+		if !g.owned[root.Name] {
+			g.fail(n, "in-place update through %s, which was not created in this function (it may alias memory other code sees)", root.Name)
+		}
+	}
 	switch l := lhs.(type) {
 	case *ast.Ident:
 		if define {
@@ -442,24 +450,47 @@ func (g *g2l) assignTo(o *g2lOut, ind int, lhs ast.Expr, rhs string, define bool
 		switch base := l.X.(type) {
 		case *ast.SelectorExpr:
 			if root, ok := base.X.(*ast.Ident); ok {
+				mustOwn(root)
 				r := g2lIdent(root.Name)
 				f := g2lIdent(base.Sel.Name)
 				o.line(ind, fmt.Sprintf("%s := { %s with %s := GoLite.Map.set %s.%s %s %s }", r, r, f, r, f, g.expr(l.Index), rhs))
 				return
 			}
 		case *ast.Ident:
+			mustOwn(base)
 			r := g2lIdent(base.Name)
 			o.line(ind, fmt.Sprintf("%s := GoLite.Map.set %s %s %s", r, r, g.expr(l.Index), rhs))
 			return
 		}
 	case *ast.SelectorExpr:
 		if root, ok := l.X.(*ast.Ident); ok {
+			mustOwn(root)
 			r := g2lIdent(root.Name)
 			o.line(ind, fmt.Sprintf("%s := { %s with %s := %s }", r, r, g2lIdent(l.Sel.Name), rhs))
 			return
 		}
 	}
 	g.fail(n, "unsupported assignment target %s", exprText(lhs))
+}
+
+// g2lCreates: the expression creates a fresh value (literal, &literal, make, new)
+func g2lCreates(e ast.Expr) bool {
+	switch x := e.(type) {
+	case *ast.CompositeLit:
+		return true
+	case *ast.UnaryExpr:
+		if x.Op == token.AND {
+			_, ok := x.X.(*ast.CompositeLit)
+			return ok
+		}
+	case *ast.CallExpr:
+		if id, ok := x.Fun.(*ast.Ident); ok && (id.Name == "make" || id.Name == "new") {
+			return true
+		}
+	case *ast.BasicLit:
+		return true
+	}
+	return false
 }
 
 // value of e when stored into lhs (nil-able targets get `some`)
@@ -485,8 +516,14 @@ func (g *g2l) stmt(o *g2lOut, ind int, s ast.Stmt) {
 			vs := sp.(*ast.ValueSpec)
 			for i, n := range vs.Names {
 				if i < len(vs.Values) {
+					g.owned[n.Name] = g2lCreates(vs.Values[i])
 					o.line(ind, "let mut "+g2lIdent(n.Name)+" := "+g.expr(vs.Values[i]))
 					continue
+				}
+				if _, ptr := vs.Type.(*ast.StarExpr); !ptr {
+					if _, isMap := vs.Type.(*ast.MapType); !isMap {
+						g.owned[n.Name] = true // a zero value of value type is this function's own
+					}
 				}
 				if vs.Type == nil {
 					g.fail(s, "var without type")
@@ -516,6 +553,9 @@ func (g *g2l) stmt(o *g2lOut, ind int, s ast.Stmt) {
 			g.fail(s, "assignment operator %s", x.Tok)
 		case len(x.Lhs) == len(x.Rhs):
 			for i := range x.Lhs {
+				if id, ok := x.Lhs[i].(*ast.Ident); ok {
+					g.owned[id.Name] = g2lCreates(x.Rhs[i])
+				}
 				g.assignTo(o, ind, x.Lhs[i], g.valueFor(x.Lhs[i], x.Rhs[i]), define, s)
 			}
 		case len(x.Rhs) == 1:
@@ -753,7 +793,7 @@ func (g *g2l) switchStmt(o *g2lOut, ind int, x *ast.SwitchStmt) {
 func g2lTranslate(t *g2lTarget) string {
 	f := parseFile(t.file)
 	fd := mustFunc(f, t.file, t.recv, t.fn)
-	g := &g2l{t: t, opt: map[string]bool{}, pkgs: map[string]bool{}}
+	g := &g2l{t: t, opt: map[string]bool{}, pkgs: map[string]bool{}, owned: map[string]bool{}}
 	for _, im := range f.Imports {
 		p, _ := strconv.Unquote(im.Path.Value)
 		n := p[strings.LastIndex(p, "/")+1:]
@@ -805,7 +845,7 @@ func g2lTranslate(t *g2lTarget) string {
 func g2lDecls(file string, names []string) string {
 	f := parseFile(file)
 	t := &g2lTarget{file: file, fn: "(package-level declarations)"}
-	g := &g2l{t: t, opt: map[string]bool{}, pkgs: map[string]bool{}}
+	g := &g2l{t: t, opt: map[string]bool{}, pkgs: map[string]bool{}, owned: map[string]bool{}}
 	for _, im := range f.Imports {
 		p, _ := strconv.Unquote(im.Path.Value)
 		n := p[strings.LastIndex(p, "/")+1:]
